@@ -710,7 +710,7 @@ Qed.
 
 Lemma clamp_span_some fx n s e s' e' : s < e -> 0 <= n ->
   clamp_span fx n (s, e) = Some (s', e') ->
-  s <= s' /\ e' <= e /\ s' < e' /\ s' <= n /\ (fx_bound fx = true -> 0 <= s').
+  s <= s' /\ e' <= e /\ s' < e' /\ s' <= n /\ (fx_bound fx = true \/ e <> 0 -> 0 <= s').
 Proof.
   intros Hse Hn. unfold clamp_span.
   replace (Z.min s e) with s by lia. replace (Z.max s e) with e by lia.
@@ -719,7 +719,7 @@ Proof.
   destruct (fx_bound fx).
   - destruct ((s =? e) || (s >=? n) || (e <=? 0)) eqn:C3; [discriminate|]. intros [= <- <-]. lia.
   - destruct ((s =? e) || (s >? n) || (e <? 0)) eqn:C3; [discriminate|]. intros [= <- <-].
-    repeat split; try lia; discriminate.
+    repeat split; try lia. all: try (intros [Hf|He]; [discriminate|lia]).
 Qed.
 
 Lemma clamp_sorted fx n sp : 0 <= n -> forall lo, spans_ok lo sp -> spans_ok lo (clamp_spans fx n sp).
@@ -741,14 +741,20 @@ Proof.
     assert (Hq : q :: r' <> []) by discriminate. specialize (IH b H3 Hq). lia.
 Qed.
 
-Lemma clamp_all_in fx n sp : fx_bound fx = true -> 0 <= n -> proper sp ->
+Definition no_end_at_zero (sp : list (Z * Z)) : Prop := Forall (fun q => snd q <> 0) sp.
+
+Lemma clamp_all_in fx n sp : fx_bound fx = true \/ no_end_at_zero sp -> 0 <= n -> proper sp ->
   Forall (fun q => 0 <= fst q <= snd q /\ fst q <= n) (clamp_spans fx n sp).
 Proof.
   intros Hfx Hn. induction sp as [|[s e] r IH]; intros Hp; [constructor|].
   inversion Hp as [|x y Hse Hr]; subst. cbn [fst snd] in Hse. cbn [clamp_spans].
-  destruct (clamp_span fx n (s, e)) as [[s' e']|] eqn:E; [|exact (IH Hr)].
+  assert (Hfx' : fx_bound fx = true \/ no_end_at_zero r).
+  { destruct Hfx as [H|H]; [left; exact H|right]. inversion H; assumption. }
+  destruct (clamp_span fx n (s, e)) as [[s' e']|] eqn:E; [|exact (IH Hfx' Hr)].
   destruct (clamp_span_some fx n s e s' e' Hse Hn E) as (A1 & A2 & A3 & A4 & A5).
-  constructor; [cbn; specialize (A5 Hfx); lia|exact (IH Hr)].
+  assert (A6 : 0 <= s').
+  { apply A5. destruct Hfx as [H|H]; [left; exact H|right]. inversion H as [|x y Hxy ?]; subst. exact Hxy. }
+  constructor; [cbn; lia|exact (IH Hfx' Hr)].
 Qed.
 
 Lemma sfl_loop_total n l : Forall (fun q => 0 <= fst q <= snd q /\ fst q <= n) l -> exists m, sfl_loop n l = Ok m.
@@ -771,8 +777,8 @@ Proof.
   cbn in H. destruct H as (H1 & H2 & H3). cbn. repeat split; try lia. exact (IH b H3).
 Qed.
 
-Lemma make_feature_total fx n rced sp minus lo : fx_bound fx = true -> 0 <= n -> sp <> [] -> spans_ok lo sp ->
-  exists fv, make_feature fx n rced sp minus = Ok fv.
+Lemma make_feature_total fx n rced sp minus lo : fx_bound fx = true \/ no_end_at_zero sp -> 0 <= n -> sp <> [] ->
+  spans_ok lo sp -> exists fv, make_feature fx n rced sp minus = Ok fv.
 Proof.
   intros Hfx Hn Hne Hok. unfold make_feature.
   destruct sp as [|[a b] r]; [congruence|]. cbn [all_coords flat_map fst snd app].
@@ -793,14 +799,110 @@ Proof.
   destruct Hs as (m & ->). cbn [bind]. eexists. reflexivity.
 Qed.
 
-Lemma fixed_never_raises_lemma fx v f : fx_bound fx = true -> contig v -> 0 < vlen v -> feat_ok f ->
+(** no span of the feature ends exactly where the displayed segment starts *)
+Definition no_span_ends_at (x : Z) (sp : list (Z * Z)) : Prop := Forall (fun q => snd q <> x) sp.
+
+Lemma never_raises_lemma fx v f : contig v -> 0 < vlen v -> feat_ok f ->
+  fx_bound fx = true \/ no_span_ends_at (parent_start v) (f_spans f) ->
   exists fv, feature_on_view fx v f = Ok fv.
 Proof.
-  intros Hfx Hc Hlen [Hne Hok]. unfold feature_on_view.
+  intros Hc Hlen [Hne Hok] Hfx. unfold feature_on_view.
   rewrite (rel_spans_contig v (f_spans f) 0 Hc Hlen (Z.le_refl 0) Hok). cbn [bind].
-  apply (make_feature_total fx (vlen v) (is_reversed v) _ (f_minus f) (0 - parent_start v) Hfx (vlen_nonneg v)).
+  apply (make_feature_total fx (vlen v) (is_reversed v) _ (f_minus f) (0 - parent_start v)).
+  - destruct Hfx as [H|H]; [left; exact H|right].
+    unfold no_end_at_zero, shift_spans. apply Forall_map.
+    apply (Forall_impl _ (P := fun q => snd q <> parent_start v)); [|exact H]. intros q Hq. cbn. lia.
+  - exact (vlen_nonneg v).
   - unfold shift_spans. destruct (f_spans f); [congruence|discriminate].
   - apply spans_ok_shift. exact Hok.
+Qed.
+
+Lemma fixed_never_raises_lemma fx v f : fx_bound fx = true -> contig v -> 0 < vlen v -> feat_ok f ->
+  exists fv, feature_on_view fx v f = Ok fv.
+Proof. intros Hfx Hc Hlen Hf. apply never_raises_lemma; try assumption. left. exact Hfx. Qed.
+
+(** the pinned code raises only when some span ends exactly at the start of the displayed segment *)
+Lemma pinned_raises_only_at_boundary_lemma v f e : contig v -> 0 < vlen v -> feat_ok f ->
+  feature_on_view pinned v f = Err e ->
+  exists a b, In (a, b) (f_spans f) /\ b = parent_start v.
+Proof.
+  intros Hc Hlen Hf Herr.
+  destruct (Forall_Exists_dec (fun q : Z * Z => snd q <> parent_start v)
+              (fun q => match Z.eq_dec (snd q) (parent_start v) with left E => right (fun H => H E) | right N => left N end)
+              (f_spans f)) as [Hall|Hex].
+  - destruct (never_raises_lemma pinned v f Hc Hlen Hf (or_intror Hall)) as (fv & Hfv). congruence.
+  - apply Exists_exists in Hex. destruct Hex as ([a b] & Hin & Hq). exists a, b. split; [exact Hin|].
+    cbn in Hq. destruct (Z.eq_dec b (parent_start v)); [assumption|contradiction].
+Qed.
+
+Lemma In_clamp_spans fx n sp q q' : In q sp -> clamp_span fx n q = Some q' -> In q' (clamp_spans fx n sp).
+Proof.
+  induction sp as [|p r IH]; intros Hin Hc; [destruct Hin|].
+  cbn [clamp_spans]. destruct Hin as [->|Hin].
+  - rewrite Hc. now left.
+  - destruct (clamp_span fx n p); [right|]; now apply IH.
+Qed.
+
+Lemma clamp_starts_le fx n sp : 0 <= n -> proper sp -> Forall (fun q => fst q <= n) (clamp_spans fx n sp).
+Proof.
+  intros Hn. induction sp as [|[s e] r IH]; intros Hp; [constructor|].
+  inversion Hp as [|x y Hse Hr]; subst. cbn [fst snd] in Hse. cbn [clamp_spans].
+  destruct (clamp_span fx n (s, e)) as [[s' e']|] eqn:E; [|exact (IH Hr)].
+  destruct (clamp_span_some fx n s e s' e' Hse Hn E) as (A1 & A2 & A3 & A4 & A5).
+  constructor; [cbn; lia|exact (IH Hr)].
+Qed.
+
+Lemma sfl_loop_err n l : Forall (fun q => fst q <= n) l -> Exists (fun q => Z.min (fst q) (snd q) < 0) l ->
+  sfl_loop n l = Err E_Value.
+Proof.
+  induction l as [|[s e] r IH]; intros Hle Hex; [inversion Hex|].
+  inversion Hle as [|x y Hs Hr]; subst. cbn [fst snd] in Hs. cbn [sfl_loop].
+  destruct ((s >? e) || (Z.min s e <? 0)) eqn:C; [reflexivity|].
+  replace (s >? n) with false by lia.
+  inversion Hex as [x y Hq|x y Hq]; subst; [cbn [fst snd] in Hq; lia|].
+  rewrite (IH Hr Hq). reflexivity.
+Qed.
+
+(** ... and it does raise ValueError whenever one does *)
+Lemma pinned_raises_at_boundary_lemma v f a b : contig v -> 0 < vlen v -> feat_ok f ->
+  In (a, b) (f_spans f) -> b = parent_start v ->
+  feature_on_view pinned v f = Err E_Value.
+Proof.
+  intros Hc Hlen [Hne Hok] Hin Hb. unfold feature_on_view.
+  rewrite (rel_spans_contig v (f_spans f) 0 Hc Hlen (Z.le_refl 0) Hok). cbn [bind].
+  set (B := parent_start v) in *. set (n := vlen v) in *. pose proof (vlen_nonneg v) as Hn. fold n in Hn.
+  pose proof (spans_ok_shift 0 B _ Hok) as Hsorted.
+  pose proof (spans_ok_proper0 _ _ Hsorted) as Hprop.
+  assert (Hab : a < b).
+  { pose proof (spans_ok_proper0 _ _ Hok) as Hp. exact (proj1 (Forall_forall _ _) Hp (a, b) Hin). }
+  assert (Hkept : In (a - B, 0) (clamp_spans pinned n (shift_spans B (f_spans f)))).
+  { apply (In_clamp_spans pinned n _ (a - B, b - B)).
+    - unfold shift_spans. apply in_map_iff. exists (a, b). split; [reflexivity|exact Hin].
+    - unfold clamp_span. cbn [fx_bound pinned].
+      replace (Z.min (a - B) (b - B)) with (a - B) by lia. replace (Z.max (a - B) (b - B)) with (b - B) by lia.
+      replace ((a - B <? 0) && (0 <? b - B)) with false by lia.
+      replace ((a - B <? n) && (n <? b - B)) with false by lia.
+      replace ((a - B =? b - B) || (a - B >? n) || (b - B <? 0)) with false by lia.
+      f_equal. f_equal. lia. }
+  unfold make_feature.
+  destruct (all_coords (shift_spans B (f_spans f))) as [|x r] eqn:Eall.
+  { destruct (f_spans f) as [|[a0 b0] r0]; [congruence|discriminate]. }
+  assert (Hs : spans_from_locations n (clamp_spans pinned n (shift_spans B (f_spans f))) = Err E_Value).
+  { unfold spans_from_locations.
+    pose proof (clamp_sorted pinned n _ Hn (0 - B) Hsorted) as Hcs.
+    destruct (clamp_spans pinned n (shift_spans B (f_spans f))) as [|[s0 e0] l0] eqn:El; [destruct Hkept|].
+    assert (Hlast : s0 < snd (last ((s0, e0) :: l0) (0, 0))).
+    { destruct l0 as [|q l1].
+      - cbn in *. lia.
+      - change (last ((s0, e0) :: q :: l1) (0, 0)) with (last (q :: l1) (0, 0)).
+        cbn in Hcs. destruct Hcs as (S1 & S2 & S3).
+        assert (Hq : q :: l1 <> []) by discriminate.
+        pose proof (spans_ok_last e0 (q :: l1) (0, 0) S3 Hq). lia. }
+    replace (s0 >? snd (last ((s0, e0) :: l0) (0, 0))) with false by lia.
+    apply sfl_loop_err.
+    - rewrite <- El. exact (clamp_starts_le pinned n _ Hn Hprop).
+    - apply Exists_exists. exists (a - B, 0). split; [exact Hkept|]. cbn. lia. }
+  rewrite Hs. reflexivity.
 Qed.
 
 (** * add_feature through a view (repaired variant) *)
